@@ -311,8 +311,9 @@ def foreign_frames(r, rng=None, n_random=6):
     return out
 
 
-def make_setup(r, K, cbs, his=(), foreign=()):
-    return dict(programs=[r.disp.insns, r.group.insns], maps=r.disp.tla_maps(),
+def make_setup(r, K, cbs, his=(), foreign=(), orc=None):
+    extra = {} if orc is None else dict(orc=list(orc))
+    return dict(**extra, programs=[r.disp.insns, r.group.insns], maps=r.disp.tla_maps(),
                 progsReg=prog_table(r, True), progsUnreg=prog_table(r, False), g=r.g, cmap=r.cmap,
                 pmap=r.props_no, countersOff=r.counters_off, countersSize=r.maps[r.cmap - 1]["vs"],
                 sterile=list(r.sterile), ref=list(r.ref), terms=r.tla_terms, props0=list(r.props0),
@@ -320,14 +321,14 @@ def make_setup(r, K, cbs, his=(), foreign=()):
                 foreign=[dict(pkt=list(p), cb=cb, reg=reg) for p, cb, reg in foreign])
 
 
-def run_table(ctx, r, K, cbs, his=(), foreign=(), workers=6, timeout=1500):
+def run_table(ctx, r, K, cbs, his=(), foreign=(), workers=6, timeout=1500, orc=None):
     """-> (entries {(cb, ix, v, hi): outcome}, foreign verdicts [outcome], TLC result)"""
     import json
     from . import tlc as TL
     wd = ctx.workdir("C22tab")
     path = os.path.join(wd, "setup.json")
     with open(path, "w") as f:
-        json.dump(make_setup(r, K, cbs, his, foreign), f)
+        json.dump(make_setup(r, K, cbs, his, foreign, orc), f)
     res = TL.run(wd, "DispatcherTable", "DispatcherTable.cfg", workers=workers, timeout=timeout,
                  deadlock=False, env={"TRACE_FILE": path})
     if res.error or not res.finished:
